@@ -3304,10 +3304,12 @@ impl Fsm {
         F: 'static + FnMut() + Send,
     {
         if delay_ms > 0 {
-            Some(
-                self.timer
-                    .schedule_with_delay(chrono::Duration::milliseconds(delay_ms), cb),
-            )
+            // "now + delay" may lie beyond the range of the calendar (e.g. delay="100000000000d"); the timer would
+            // panic on the addition. Such an event stays pending at the latest date that can be represented.
+            let date = chrono::Utc::now()
+                .checked_add_signed(chrono::Duration::milliseconds(delay_ms))
+                .unwrap_or(chrono::DateTime::<chrono::Utc>::MAX_UTC);
+            Some(self.timer.schedule_with_date(date, cb))
         } else {
             cb();
             None
